@@ -1,6 +1,7 @@
 package main
 
 import (
+	"bytes"
 	"fmt"
 	"go/token"
 	"go/types"
@@ -261,6 +262,26 @@ func extractHeaderDecoderSSA(p *Program, fn *ssa.Function, lc *layoutCtx) ([]str
 	var errs []string
 	single, _ := p.rootConst("SingleConnect")
 	var localVersion, versionFrom *ssa.Alloc
+	// the fields may be collected in a local Header value that is stored into the receiver as a whole
+	var staged ssa.Value
+	for _, b := range fn.Blocks {
+		for _, in := range b.Instrs {
+			if st, ok := in.(*ssa.Store); ok && st.Addr == ssa.Value(recv) {
+				if u, ok := st.Val.(*ssa.UnOp); ok && u.Op == token.MUL {
+					if al, ok := u.X.(*ssa.Alloc); ok && typeIs(al.Type().(*types.Pointer).Elem(), modPath, "Header") {
+						if staged != nil && staged != ssa.Value(al) {
+							errs = append(errs, "the receiver is assigned from two different local headers")
+						}
+						staged = al
+						if !unconditionalBlock(b, fn) {
+							errs = append(errs, "the receiver is assigned conditionally")
+						}
+					}
+				}
+			}
+		}
+	}
+	isTarget := func(base ssa.Value) bool { return base == ssa.Value(recv) || (staged != nil && base == staged) }
 	readOf := func(v ssa.Value) (string, int64, bool) { // kind, offset
 		v = stripAllConv(v)
 		if u, ok := v.(*ssa.UnOp); ok && u.Op == token.MUL {
@@ -284,7 +305,7 @@ func extractHeaderDecoderSSA(p *Program, fn *ssa.Function, lc *layoutCtx) ([]str
 			switch x := in.(type) {
 			case *ssa.Store:
 				f, base, ok := fieldAddrOf(x.Addr)
-				if !ok || base != ssa.Value(recv) {
+				if !ok || !isTarget(base) {
 					continue
 				}
 				if u, isLoad := x.Val.(*ssa.UnOp); isLoad && u.Op == token.MUL && f.Name() == "Version" {
@@ -303,10 +324,56 @@ func extractHeaderDecoderSSA(p *Program, fn *ssa.Function, lc *layoutCtx) ([]str
 					at[k] = kind + ":" + f.Name()
 					continue
 				}
+				// the value was read into a local first (and, for the flags, adjusted there)
+				if u, isLoad := x.Val.(*ssa.UnOp); isLoad && u.Op == token.MUL {
+					if al, isAlloc := u.X.(*ssa.Alloc); isAlloc {
+						good, found := true, false
+						for _, ref := range *al.Referrers() {
+							switch y := ref.(type) {
+							case *ssa.Store:
+								if y.Addr != ssa.Value(al) {
+									good = false
+									continue
+								}
+								if kind, k, ok := readOf(y.Val); ok && !found && unconditionalBlock(y.Block(), fn) {
+									if _, dup := at[k]; dup {
+										good = false
+									}
+									at[k] = kind + ":" + f.Name()
+									found = true
+									continue
+								}
+								if bo, ok := stripAllConv(y.Val).(*ssa.BinOp); ok && bo.Op == token.OR && f.Name() == "Flags" {
+									if c, okc := constInt(bo.Y); okc && c == single {
+										if l2, ok := bo.X.(*ssa.UnOp); ok && l2.Op == token.MUL && l2.X == ssa.Value(al) {
+											continue
+										}
+									}
+								}
+								good = false
+							case *ssa.UnOp, *ssa.DebugRef:
+							case *ssa.Call:
+								// flags.Set(SingleConnect), the setter of the flag type
+								cf := y.Common().StaticCallee()
+								if cf != nil && cf.Name() == "Set" && typeIsRecv(cf, modPath, "HeaderFlag") && len(y.Common().Args) == 2 && f.Name() == "Flags" {
+									if c, okc := constInt(y.Common().Args[1]); okc && c == single {
+										continue
+									}
+								}
+								good = false
+							default:
+								good = false
+							}
+						}
+						if good && found {
+							continue
+						}
+					}
+				}
 				// the documented quirk: Flags |= SingleConnect
 				if bo, ok := stripAllConv(x.Val).(*ssa.BinOp); ok && bo.Op == token.OR && f.Name() == "Flags" {
 					if c, okc := constInt(bo.Y); okc && c == single {
-						if lf, lb, ok := loadedField(bo.X); ok && lf == f && lb == ssa.Value(recv) {
+						if lf, lb, ok := loadedField(bo.X); ok && lf == f && isTarget(lb) {
 							continue
 						}
 					}
@@ -325,7 +392,7 @@ func extractHeaderDecoderSSA(p *Program, fn *ssa.Function, lc *layoutCtx) ([]str
 						}
 						continue
 					}
-					if fld, base, ok := fieldAddrOf(x.Common().Args[0]); ok && fld.Name() == "Version" && base == ssa.Value(recv) {
+					if fld, base, ok := fieldAddrOf(x.Common().Args[0]); ok && fld.Name() == "Version" && isTarget(base) {
 						cs, ok := constSliceOf(x.Common().Args[1])
 						if ok && cs.base == ssa.Value(data) && cs.lo == 0 {
 							at[0] = versionDecoderItem(lc)
@@ -606,4 +673,160 @@ func extractPacketDecoderSSA(p *Program, fn *ssa.Function) ([]string, []string) 
 		errs = append(errs, "Body is not assigned from the input")
 	}
 	return out, errs
+}
+
+// localInlined: a clone of fn with its small helpers folded in, for the sub-codec matchers (independent of
+// whether the property is being evaluated on views).
+func (p *Program) localInlined(fn *ssa.Function) *ssa.Function {
+	if fn == nil {
+		return nil
+	}
+	if p.useViews {
+		return p.view(fn)
+	}
+	nf, _ := ssa.CloneWithInlining(fn, func(caller, callee *ssa.Function) bool { return p.isHelper(fn, callee) }, 4)
+	if nf == nil {
+		return fn
+	}
+	var buf bytes.Buffer
+	if !ssa.SanityCheckView(nf, &buf) && realSanityProblem(buf.String()) {
+		return fn
+	}
+	return nf
+}
+
+// versionEncoderSSA: Version.MarshalBinary returns one octet, (field<<4) | field of the receiver.
+// Returns "nib:Hi/Lo".
+func versionEncoderSSA(p *Program) (string, bool) {
+	fn := p.localInlined(p.LookupFunc("", "Version.MarshalBinary"))
+	if fn == nil || len(fn.Blocks) == 0 {
+		return "", false
+	}
+	item := ""
+	for _, ex := range exitBlocks(fn) {
+		ret := ex.Instrs[len(ex.Instrs)-1].(*ssa.Return)
+		if len(ret.Results) != 2 || !isNilConst(ret.Results[1]) {
+			continue
+		}
+		sl, ok := ret.Results[0].(*ssa.Slice)
+		if !ok {
+			return "", false
+		}
+		al, ok := sl.X.(*ssa.Alloc)
+		if !ok {
+			return "", false
+		}
+		arr, ok := al.Type().(*types.Pointer).Elem().Underlying().(*types.Array)
+		if !ok || arr.Len() != 1 {
+			return "", false
+		}
+		var stored ssa.Value
+		for _, ref := range *al.Referrers() {
+			ia, ok := ref.(*ssa.IndexAddr)
+			if !ok {
+				continue
+			}
+			for _, r2 := range *ia.Referrers() {
+				if st, ok := r2.(*ssa.Store); ok && st.Addr == ssa.Value(ia) {
+					if stored != nil {
+						return "", false
+					}
+					stored = st.Val
+				}
+			}
+		}
+		if stored == nil {
+			return "", false
+		}
+		or, ok := stripAllConv(stored).(*ssa.BinOp)
+		if !ok || (or.Op != token.OR && or.Op != token.ADD && or.Op != token.XOR) {
+			return "", false
+		}
+		hiV, loV := stripAllConv(or.X), stripAllConv(or.Y)
+		if _, isShift := hiV.(*ssa.BinOp); !isShift {
+			hiV, loV = loV, hiV
+		}
+		sh, ok := hiV.(*ssa.BinOp)
+		if !ok || sh.Op != token.SHL {
+			return "", false
+		}
+		if c, okc := constInt(sh.Y); !okc || c != 4 {
+			return "", false
+		}
+		hf, _, ok1 := loadedField(stripAllConv(sh.X))
+		lf, _, ok2 := loadedField(loV)
+		if !ok1 || !ok2 {
+			return "", false
+		}
+		it := "nib:" + hf.Name() + "/" + lf.Name()
+		if item != "" && item != it {
+			return "", false
+		}
+		item = it
+	}
+	return item, item != ""
+}
+
+// versionDecoderSSA: Version.UnmarshalBinary sets one field to data[0]>>4 and one to data[0]&0xf, directly or
+// through a local Version stored into the receiver as a whole.
+func versionDecoderSSA(p *Program) (string, bool) {
+	fn := p.localInlined(p.LookupFunc("", "Version.UnmarshalBinary"))
+	if fn == nil || len(fn.Blocks) == 0 || len(fn.Params) != 2 {
+		return "", false
+	}
+	recv, data := fn.Params[0], fn.Params[1]
+	var staged ssa.Value
+	for _, b := range fn.Blocks {
+		for _, in := range b.Instrs {
+			if st, ok := in.(*ssa.Store); ok && st.Addr == ssa.Value(recv) {
+				if u, ok := st.Val.(*ssa.UnOp); ok && u.Op == token.MUL {
+					if al, ok := u.X.(*ssa.Alloc); ok {
+						staged = al
+					}
+				}
+			}
+		}
+	}
+	firstOctet := func(v ssa.Value) bool {
+		u, ok := stripAllConv(v).(*ssa.UnOp)
+		if !ok || u.Op != token.MUL {
+			return false
+		}
+		ia, ok := u.X.(*ssa.IndexAddr)
+		if !ok || ia.X != ssa.Value(data) {
+			return false
+		}
+		c, okc := constInt(ia.Index)
+		return okc && c == 0
+	}
+	hi, lo := "", ""
+	for _, b := range fn.Blocks {
+		for _, in := range b.Instrs {
+			st, ok := in.(*ssa.Store)
+			if !ok {
+				continue
+			}
+			f, base, ok := fieldAddrOf(st.Addr)
+			if !ok || !(base == ssa.Value(recv) || (staged != nil && base == staged)) {
+				continue
+			}
+			bo, ok := stripAllConv(st.Val).(*ssa.BinOp)
+			if !ok || !firstOctet(bo.X) {
+				return "", false
+			}
+			c, okc := constInt(bo.Y)
+			switch {
+			case okc && bo.Op == token.SHR && c == 4 && hi == "":
+				hi = f.Name()
+			case okc && bo.Op == token.AND && c == 15 && lo == "":
+				lo = f.Name()
+			default:
+				return "", false
+			}
+		}
+	}
+	if hi == "" || lo == "" {
+		return "", false
+	}
+	return "nib:" + hi + "/" + lo, true
 }
